@@ -1,5 +1,6 @@
 import Taskpool.Model.World
 import Taskpool.Model.Bits
+import Taskpool.Inv.Bits2
 open Taskpool
 
 def parseCb : String → CbSpec
@@ -119,7 +120,7 @@ partial def loop (h : IO.FS.Stream) (out : IO.FS.Stream) (w : World) : IO Unit :
     | none => out.putStrLn "bad-op"; loop h out w
     | some op =>
       let (w', s) := w.apply op
-      out.putStrLn (s ++ " ## ib=" ++ invBits w')
+      out.putStrLn (s ++ " ## ib=" ++ invBits2 w')
       loop h out w'
 
 def main : IO Unit := do
